@@ -260,8 +260,7 @@ def run(ctx: Ctx) -> None:
         streams.append(b"".join(parts))
 
     def run_reads(chunks):
-        t = T.PortTransport.__new__(T.PortTransport)
-        t._recv_buffer = b""
+        t = T.PortTransport.__new__(T.PortTransport)        # the receive buffer is left as the real constructor leaves it
         t._closing = False
         t._max_read_size = 1024
         seen = []
@@ -392,8 +391,21 @@ def serial_path_oracle(ctx: Ctx, T, lines: list[str], trials: int) -> None:
             chunks.append(stream[prev:c])
             prev = c
         chunks.append(stream[prev:])
+        # (the receive buffer is left as the real constructor leaves it.)  Before every third history another gateway of the same process has heard
+        # the beginning of a frame and gone away (a re-plugged dongle, a reloaded integration): what THIS transport delivers depends on its own bytes only
+        if trial % 3 == 2:
+            t0 = T.PortTransport.__new__(T.PortTransport)
+            t0._closing, t0._reading, t0._max_read_size, t0._inbound_rule, t0._outbound_rule = False, True, 4096, {}, {}
+            t0._extra = {"active_gwy": None, "signature": None}
+            t0._this_pkt = t0._prev_pkt = None
+            t0._serial = SimpleNamespace(read=lambda n: b"045  I --- 01:145038 --:------ 01:145038 1F09 003 FF05")
+            t0._loop, t0._protocol = Loop(), Proto()
+            t0._init_fut = SimpleNamespace(done=lambda: True)
+            try:
+                T.PortTransport._read_ready(t0)
+            except Exception:  # noqa: BLE001, S110
+                pass
         t = T.PortTransport.__new__(T.PortTransport)
-        t._recv_buffer = b""
         t._closing = False
         t._reading = True
         t._max_read_size = 4096
